@@ -569,6 +569,9 @@ async fn wait_for_pipeline_processes_and_update_status(
     // Clear our the pipeline status so we can start filling it out.
     shell.last_pipeline_statuses_mut().clear();
 
+    let pipeline_len = pipeline.seq.len();
+    let mut stage_index = 0;
+
     while let Some(child) = process_spawn_results.pop_front() {
         let wait_result = if !stopped_children.is_empty() {
             child.poll().await?
@@ -576,8 +579,23 @@ async fn wait_for_pipeline_processes_and_update_status(
             child.wait().await?
         };
 
+        // Same test as in `spawn_pipeline_processes`: did this stage run in the current shell?
+        let ran_in_current_shell = pipeline_len == 1
+            || (stage_index == pipeline_len - 1
+                && shell.options().run_last_pipeline_cmd_in_current_shell
+                && !shell.options().enable_job_control);
+        stage_index += 1;
+
         match wait_result {
-            ExecutionWaitResult::Completed(current_result) => {
+            ExecutionWaitResult::Completed(mut current_result) => {
+                // A stage that ran in its own subshell hands back its exit status only: a
+                // `break`, `continue`, `return` or `exit` executed there must not unwind the
+                // parent shell.
+                if !ran_in_current_shell {
+                    current_result.next_control_flow =
+                        crate::results::ExecutionControlFlow::Normal;
+                }
+
                 result = current_result;
                 shell.set_last_exit_status(result.exit_code.into());
                 shell
